@@ -240,6 +240,15 @@ fn run(args: Args) -> Report {
         ("/ws/pkg/src/c.gleam".into(), "import a.{type T}\npub type V = T\npub fn f(x: V) -> T { x }\n".into()),
     ]);
     fixed.push(vec![("/ws/pkg/src/a.gleam".into(), "type T = T\ntype U = V\ntype V = U\nfn f(x: T, y: U) { #(x, y) }\n".into())]);
+    // byte-identical sibling modules that use each other's (equally named) items
+    {
+        let twin = "import lib\n\npub type Twin { Twin(name: String) }\n\npub fn main() { lib.helper(Twin(\"x\").name) }\n";
+        fixed.push(vec![
+            ("/ws/pkg/src/lib.gleam".into(), "pub fn helper(x) { x }\n".into()),
+            ("/ws/pkg/src/a.gleam".into(), twin.into()),
+            ("/ws/pkg/src/b.gleam".into(), twin.into()),
+        ]);
+    }
     fixed.push(vec![("/ws/pkg/src/a.gleam".into(), "type L { L(next: L) }\nfn f(l: L) { l.next.next.next }\nfn g() { let x = [x] x }\n".into())]);
     // W0b: long constructs. A chain of thousands of operators / postfix steps / `use`
     // statements nests for everything that walks the program recursively although the parser
